@@ -39,6 +39,8 @@ type c13Scn struct {
 	Fault int `json:"fault,omitempty"`
 	// Debug: the Client logs its dialogue through the library's own log.Stdlog (debug level)
 	Debug bool `json:"debug,omitempty"`
+	// Quoted: every envelope address has a local part that has to be transmitted as quoted-string ("m 3 x"@…)
+	Quoted bool `json:"quoted,omitempty"`
 }
 
 type c13Case struct {
@@ -47,23 +49,25 @@ type c13Case struct {
 }
 
 var c13Scenarios = []c13Scn{
-	{"2xSend(1)", 2, 0, 1, "", 0, false},
-	{"2xSend(2)", 2, 0, 2, "", 0, false},
-	{"3xSend(1)", 3, 0, 1, "", 0, false},
-	{"2xDialAndSend(1)", 0, 2, 1, "", 0, false},
-	{"Send+DialAndSend", 1, 1, 1, "", 0, false},
-	{"2xSend+DialAndSend", 2, 1, 1, "", 0, false},
-	{"2xDialAndSend(1)+LOGIN", 0, 2, 1, "LOGIN", 0, false},
-	{"2xDialAndSend(1)+SCRAM", 0, 2, 1, "SCRAM-SHA-256", 0, false},
-	{"Send+DialAndSend+AUTODISCOVER", 1, 1, 1, "AUTODISCOVER", 0, false},
-	{"2xSend(1)/rcpt-refused", 2, 0, 1, "", 1, false},
-	{"2xSend(2)/data-refused", 2, 0, 2, "", 3, false},
-	{"Send+DialAndSend/dialer-rcpt-refused", 1, 1, 1, "", 1, false},
-	{"Send+DialAndSend/dialer-rcpt-refused+rset-fails", 1, 1, 1, "", 2, false},
-	{"Send+DialAndSend/dialer-data-refused", 1, 1, 1, "", 3, false},
-	{"2xDialAndSend(1)/rcpt-refused+rset-fails", 0, 2, 1, "", 2, false},
-	{"Send+DialAndSend+debuglog", 1, 1, 1, "", 0, true},
-	{"2xDialAndSend(1)+debuglog", 0, 2, 1, "", 0, true},
+	{"2xSend(1)", 2, 0, 1, "", 0, false, false},
+	{"2xSend(2)", 2, 0, 2, "", 0, false, false},
+	{"3xSend(1)", 3, 0, 1, "", 0, false, false},
+	{"2xDialAndSend(1)", 0, 2, 1, "", 0, false, false},
+	{"Send+DialAndSend", 1, 1, 1, "", 0, false, false},
+	{"2xSend+DialAndSend", 2, 1, 1, "", 0, false, false},
+	{"2xDialAndSend(1)+LOGIN", 0, 2, 1, "LOGIN", 0, false, false},
+	{"2xDialAndSend(1)+SCRAM", 0, 2, 1, "SCRAM-SHA-256", 0, false, false},
+	{"Send+DialAndSend+AUTODISCOVER", 1, 1, 1, "AUTODISCOVER", 0, false, false},
+	{"2xSend(1)/rcpt-refused", 2, 0, 1, "", 1, false, false},
+	{"2xSend(2)/data-refused", 2, 0, 2, "", 3, false, false},
+	{"Send+DialAndSend/dialer-rcpt-refused", 1, 1, 1, "", 1, false, false},
+	{"Send+DialAndSend/dialer-rcpt-refused+rset-fails", 1, 1, 1, "", 2, false, false},
+	{"Send+DialAndSend/dialer-data-refused", 1, 1, 1, "", 3, false, false},
+	{"2xDialAndSend(1)/rcpt-refused+rset-fails", 0, 2, 1, "", 2, false, false},
+	{"Send+DialAndSend+debuglog", 1, 1, 1, "", 0, true, false},
+	{"2xDialAndSend(1)+debuglog", 0, 2, 1, "", 0, true, false},
+	{"2xDialAndSend(1)+quoted-local-parts", 0, 2, 1, "", 0, false, true},
+	{"Send+DialAndSend+quoted-local-parts", 1, 1, 1, "", 0, false, true},
 }
 
 var c13Blocked int32
@@ -76,10 +80,11 @@ type c13World struct {
 	bodies  []func()
 	threads int
 	target  int // index of the message the server refuses (-1: none)
+	quoted  bool
 }
 
 func c13Build(r *vf.Run, scn c13Scn, hook func(string)) *c13World {
-	w := &c13World{target: -1}
+	w := &c13World{target: -1, quoted: scn.Quoted}
 	if scn.Fault > 0 {
 		w.target = (scn.Senders + scn.Dialers - 1) * scn.PerCall
 	}
@@ -145,7 +150,12 @@ func c13Build(r *vf.Run, scn c13Scn, hook func(string)) *c13World {
 	for t := 0; t < w.threads; t++ {
 		var ms []*mail.Msg
 		for j := 0; j < scn.PerCall; j++ {
-			ms = append(ms, hx.StdMsg(id, 2, mail.EncodingQP))
+			m := hx.StdMsg(id, 2, mail.EncodingQP)
+			if scn.Quoted {
+				_ = m.From(fmt.Sprintf("%q@snd.example", c13QLocal("m", id, 0)))
+				_ = m.To(fmt.Sprintf("%q@rcp.example", c13QLocal("r", id, 0)), fmt.Sprintf("%q@rcp.example", c13QLocal("r", id, 1)))
+			}
+			ms = append(ms, m)
 			id++
 		}
 		w.msgs = append(w.msgs, ms)
@@ -160,6 +170,9 @@ func c13Build(r *vf.Run, scn c13Scn, hook func(string)) *c13World {
 	}
 	return w
 }
+
+// c13QLocal is a local part that is only legal as quoted-string (blanks), distinct per message and role.
+func c13QLocal(role string, i, j int) string { return fmt.Sprintf("%s %d %d q", role, i, j) }
 
 // c13Judge applies the oracle after all bodies returned.
 func c13Judge(w *c13World, add func(key, f string, a ...interface{})) {
@@ -204,7 +217,11 @@ func c13Judge(w *c13World, add func(key, f string, a ...interface{})) {
 				continue
 			}
 			committed[hit]++
-			if cm.From.String() != hx.Sender(hit) || len(cm.Rcpts) != 2 || cm.Rcpts[0].String() != hx.Rcpt(hit, 0) || cm.Rcpts[1].String() != hx.Rcpt(hit, 1) {
+			wantFrom, wantR0, wantR1 := hx.Sender(hit), hx.Rcpt(hit, 0), hx.Rcpt(hit, 1)
+			if w.quoted {
+				wantFrom, wantR0, wantR1 = c13QLocal("m", hit, 0)+"@snd.example", c13QLocal("r", hit, 0)+"@rcp.example", c13QLocal("r", hit, 1)+"@rcp.example"
+			}
+			if cm.From.String() != wantFrom || len(cm.Rcpts) != 2 || cm.Rcpts[0].String() != wantR0 || cm.Rcpts[1].String() != wantR1 {
 				add("foreign-envelope", "message %d was committed with envelope %s -> %v", hit, cm.From, cm.Rcpts)
 			}
 		}
@@ -275,9 +292,10 @@ func c13RacePass(iter int) int {
 	rng := rand.New(rand.NewSource(int64(iter)))
 	var rmu sync.Mutex
 	for it := 0; it < iter; it++ {
-		for _, scn := range []c13Scn{{"2", 2, 0, 1, "", 0, false}, {"8", 6, 2, 1, "", 0, false}, {"64", 48, 16, 1, "", 0, false}, {"3x2", 3, 0, 2, "", 0, false}, {"dial", 0, 4, 1, "", 0, false},
-			{"dial+login", 0, 6, 1, "LOGIN", 0, false}, {"mixed+scram", 3, 5, 1, "SCRAM-SHA-256", 0, false}, {"mixed+auto", 2, 6, 1, "AUTODISCOVER", 0, false},
-			{"mixed+debuglog", 4, 4, 1, "", 0, true}, {"dial+login+debuglog", 0, 6, 1, "LOGIN", 0, true}} {
+		for _, scn := range []c13Scn{{"2", 2, 0, 1, "", 0, false, false}, {"8", 6, 2, 1, "", 0, false, false}, {"64", 48, 16, 1, "", 0, false, false}, {"3x2", 3, 0, 2, "", 0, false, false}, {"dial", 0, 4, 1, "", 0, false, false},
+			{"dial+login", 0, 6, 1, "LOGIN", 0, false, false}, {"mixed+scram", 3, 5, 1, "SCRAM-SHA-256", 0, false, false}, {"mixed+auto", 2, 6, 1, "AUTODISCOVER", 0, false, false},
+			{"mixed+debuglog", 4, 4, 1, "", 0, true, false}, {"dial+login+debuglog", 0, 6, 1, "LOGIN", 0, true, false},
+			{"mixed+quoted-local-parts", 3, 6, 1, "", 0, false, true}} {
 			if scn.Senders+scn.Dialers > 16 && it%4 != 0 {
 				continue
 			}
@@ -324,7 +342,7 @@ func init() {
 	vf.Register(&vf.Check{
 		ID: "C13", Title: "concurrent use of one Client is safe",
 		Run: func(r *vf.Run) {
-			r.SetRule("scenarios {2×Send(1 msg), 2×Send(2 msgs), 3×Send(1), 2×DialAndSend, Send+DialAndSend, 2×Send+DialAndSend, 2×DialAndSend with LOGIN / SCRAM authentication, Send+DialAndSend with auto-discovered authentication; scenarios with debug logging through the library's own logger, and scenarios in which the server refuses one message (a recipient with or without a failing clean-up RSET, or DATA) of one thread while the other threads' messages must be unaffected} on one Client; ALL interleavings at visible operations (every Lock/RLock of go-mail's mutexes through the sync shim, every connection Read/Write/Close) up to the preemption bound, under a cooperative scheduler that models Go's RWMutex (a waiting writer blocks new readers); oracle per schedule: protocol monitor on every connection, commit log = every message the server did not refuse exactly once with its own envelope and complete content (a refused one never), exactly the calls without a refused message return nil, no deadlock; plus a separate free-running pass of the same bodies under the Go race detector (2..64 goroutines, jittered I/O) — that pass samples schedules; distinct by (scenario, schedule)")
+			r.SetRule("scenarios {2×Send(1 msg), 2×Send(2 msgs), 3×Send(1), 2×DialAndSend, Send+DialAndSend, 2×Send+DialAndSend, 2×DialAndSend with LOGIN / SCRAM authentication, Send+DialAndSend with auto-discovered authentication; scenarios with debug logging through the library's own logger, scenarios whose envelope addresses need quoting, and scenarios in which the server refuses one message (a recipient with or without a failing clean-up RSET, or DATA) of one thread while the other threads' messages must be unaffected} on one Client; ALL interleavings at visible operations (every Lock/RLock of go-mail's mutexes through the sync shim, every connection Read/Write/Close) up to the preemption bound, under a cooperative scheduler that models Go's RWMutex (a waiting writer blocks new readers); oracle per schedule: protocol monitor on every connection, commit log = every message the server did not refuse exactly once with its own envelope and complete content (a refused one never), exactly the calls without a refused message return nil, no deadlock; plus a separate free-running pass of the same bodies under the Go race detector (2..64 goroutines, jittered I/O) — that pass samples schedules; distinct by (scenario, schedule)")
 			r.Assume("releases are not preemption points (sound for data-race-free code; races are the job of the separate -race pass)", "the race pass is sampling, not exhaustive: the 'no data race under any schedule' clause is only decided for the schedules it happens to run")
 			bound := 2
 			if r.Thorough {
